@@ -592,3 +592,8 @@ if __name__ == "__main__":
         res = translator_selftest(c, verbose=True)
         sys.exit(0 if res["ran"] and not res["failed"] else 1)
     print(__doc__)
+
+
+def run(ctx, _inner=run):     # + T5-race (lib/racetie.py): data-race freedom, the assumption under every interleaving model; also re-runs its replay files
+    from lib import racetie
+    return racetie.stage(ctx, _inner, ["net/rest", "net/grpc", "net"])
